@@ -511,7 +511,9 @@ def report_violations(prop_id, mod, seed, args, viols, t0, agg, pre, st=None):
                 printed.add(key)
                 print(f"KNOWN-FINDING: property={prop_id} {kf0['description']}")
             continue
-        if not args.no_minimize:
+        if not args.no_minimize and not rule.endswith("_accepted"):
+            # ("<something invalid> was accepted" cases are enumerated by hand and already minimal: shrinking the input of
+            # an acceptance only removes the invalid part)
             spec, sc, info = minimize.minimise(prop_id, mod, spec, sc, rule, decoy=v.get("decoy_spec"), prefix=v.get("prefix"))
             if v.get("decoy_spec") is not None and info.get("needs_decoy") is False:
                 v["decoy_spec"] = None
